@@ -20,7 +20,7 @@ import (
 func init() {
 	ev.Register(&ev.Spec{
 		ID: "C18", Level: "exploration",
-		Rule:    "histories of same-type messages with shrinking and growing variable parts (name lists 200 -> 16 -> 2 -> 0 -> 5, strings 65535 -> 300 -> 1 -> 0 -> 40 bytes, payloads msize-bound -> 4096 -> 7 -> 0 -> 100) for Twalk, Twalkgetattr, Twrite, Tattach, Tsymlink, Tusymlink, Trenameat, Txattrwalk, Txattrcreate+Twrite, Tread, Treaddir, interleaved over 2-4 connections to one server (the message cache and buffer pools are process-wide / per connection), with rejected frames in between (objects abandoned mid-decode), reads of n then m < n bytes with a backend that fills only half of what it reports, repeated Tversion changing msize between reads; every backend-observed argument and every reply byte is compared with the reference decode/encode of that frame alone. Thorough adds concurrent connections under the race detector. Non-trivial: the previous message of that type on any connection had a longer variable part; distinct by (type, previous length class, length class, connection switch).",
+		Rule:    "histories of same-type messages with shrinking and growing variable parts (name lists 200 -> 16 -> 2 -> 0 -> 5, strings 65535 -> 300 -> 1 -> 0 -> 40 bytes, payloads msize-bound -> 4096 -> 7 -> 0 -> 100) for Twalk, Twalkgetattr, Twrite, Tattach, Tsymlink, Tusymlink, Trenameat, Txattrwalk, Txattrcreate+Twrite, Tread, Treaddir, interleaved over 2-4 connections to one server (the message cache and buffer pools are process-wide / per connection), with rejected frames in between (objects abandoned mid-decode) and frames of 14 types that end before their fields do (nothing may be completed from bytes outside the frame: no backend call, no binding lost or made), reads of n then m < n bytes with a backend that fills only half of what it reports, repeated Tversion changing msize between reads; every backend-observed argument and every reply byte is compared with the reference decode/encode of that frame alone. Thorough adds concurrent connections under the race detector. Non-trivial: the previous message of that type on any connection had a longer variable part; distinct by (type, previous length class, length class, connection switch).",
 		Assume:  []string{"recfs deep-copies arguments at call time", "a backend may leave part of the read buffer untouched: those bytes must be zero, not stale"},
 		Shards:  shards(8, 16),
 		Race:    raceIn("thorough"),
@@ -161,7 +161,10 @@ func c18History(r *ev.Rand, extra int) []c18step {
 	for _, n := range []int{4000, 200, 50, 24, 3000} {
 		h = append(h, c18step{"readdir", n})
 	}
-	kinds := []string{"walk", "walkgetattr", "symlink", "usymlink", "renameat", "xattrwalk", "write", "read", "xattrcreate", "readdir", "reject", "version"}
+	for n := 0; n < 24; n++ {
+		h = append(h, c18step{"short", n})
+	}
+	kinds := []string{"walk", "walkgetattr", "symlink", "usymlink", "renameat", "xattrwalk", "write", "read", "xattrcreate", "readdir", "reject", "version", "short", "short"}
 	for i := 0; i < extra; i++ {
 		k := ev.Pick(r, kinds)
 		n := []int{0, 1, 2, 5, 16, 100, 300, 4000}[r.Intn(8)]
@@ -391,6 +394,78 @@ func c18Do(c *ev.Ctx, w *c18world, cn *c18conn, st c18step, r *ev.Rand, prevLen 
 		// wait for the error reply (tag or NOTAG)
 		quiesce.WaitUntil(func() bool { return len(cn.p.Outstanding()) == 0 }, wd)
 		cn.p.Monitor()
+	case "short":
+		// a well-delimited frame that ends before its type's fields do: whatever
+		// the receiver makes of it, nothing may be completed from bytes that an
+		// earlier frame left in a recycled buffer. Every candidate, completed
+		// from such bytes, would reach the backend or drop a binding.
+		cands := []struct {
+			t    uint8
+			vals []any
+			max  int // cut strictly below this many body bytes
+		}{
+			{wire.Tclunk, []any{u(5)}, 4},
+			{wire.Tremove, []any{u(5)}, 4},
+			{wire.Twalk, []any{u(1), u(60), genNames(r, 1+st.n%5)}, 1 << 20},
+			{wire.Tmkdir, []any{u(1), genStr(r, 1+st.n%40), u(0755), u(0)}, 1 << 20},
+			{wire.Tsymlink, []any{u(1), genStr(r, 1+st.n%40), genStr(r, 1+st.n%90), u(0)}, 1 << 20},
+			{wire.Trenameat, []any{u(1), genStr(r, 1+st.n%40), u(0), genStr(r, 1+st.n%30)}, 1 << 20},
+			{wire.Tunlinkat, []any{u(1), genStr(r, 1+st.n%40), u(0)}, 1 << 20},
+			{wire.Twrite, []any{u(2), u(7), r.Bytes(1 + st.n%50)}, 16},
+			{wire.Tread, []any{u(2), u(0), u(16)}, 16},
+			{wire.Tgetattr, []any{u(1), u(0x3fff)}, 12},
+			{wire.Tsetattr, []any{u(1), u(1), u(0600), u(0), u(0), u(0), u(0), u(0), u(0), u(0)}, 1 << 20},
+			{wire.Txattrwalk, []any{u(5), u(61), genStr(r, 1+st.n%60)}, 1 << 20},
+			{wire.Tattach, []any{u(62), u(wire.NOFID), "u", genStr(r, 1+st.n%20), u(wire.NOUID)}, 1 << 20},
+			{wire.Tlcreate, []any{u(1), genStr(r, 1+st.n%20), u(2), u(0644), u(0)}, 1 << 20},
+		}
+		cd := cands[r.Intn(len(cands))]
+		body, err := wire.EncodeBody(cd.t, cd.vals)
+		if err != nil || len(body) == 0 {
+			return true
+		}
+		k := r.Intn(minI(len(body), cd.max))
+		switch r.Intn(4) {
+		case 0:
+			k = 0
+		case 1:
+			k = minI(len(body), cd.max) - 1
+		}
+		tag := cn.p.Tag()
+		w.mu.Lock()
+		mark := w.rf.Len()
+		w.mu.Unlock()
+		// the answer carries the frame's tag or NOTAG (the statement does not say which)
+		from := cn.p.NReplies()
+		cn.p.SendFrame(wire.Frame(cd.t, tag, body[:k]))
+		rp, got, out, dump := cn.p.At(from)
+		cn.p.Forget(tag, cd.t)
+		if !got {
+			if out != quiesce.CondMet {
+				hang(c, out, dump, "C18:short-frame-unanswered:"+wire.TypeName(cd.t), nil)
+			} else {
+				c.Violation("C18:connection-ended-by-short-frame:"+wire.TypeName(cd.t), map[string]any{"body_bytes": k})
+			}
+			return false
+		}
+		res := rawpeer.Result{Msg: rp.Msg, Raw: rp.Raw, OK: true}
+		if calls := w.rf.Since(mark); len(calls) > 0 {
+			viol("frame-ending-early-completed-from-bytes-outside-it:backend-call:"+wire.TypeName(cd.t), map[string]any{"body_bytes_sent": k, "body_bytes_needed": len(body), "reply": res.Msg.String(), "backend_calls": callList(calls)})
+		}
+		for _, fid := range []uint64{0, 1, 2, 3, 5} {
+			if g := cn.p.RPC(wire.Tgetattr, u(fid), u(1)); g.OK && g.Msg.Type != wire.Rgetattr {
+				viol("frame-ending-early-completed-from-bytes-outside-it:binding-lost:"+wire.TypeName(cd.t), map[string]any{"body_bytes_sent": k, "fid": fid, "reply": res.Msg.String(), "probe": g.Msg.String()})
+				return false
+			}
+		}
+		for _, fid := range []uint64{60, 61, 62} {
+			if g := cn.p.RPC(wire.Tclunk, u(fid)); g.OK && g.Msg.Type == wire.Rclunk {
+				viol("frame-ending-early-completed-from-bytes-outside-it:fid-bound:"+wire.TypeName(cd.t), map[string]any{"body_bytes_sent": k, "fid": fid, "reply": res.Msg.String()})
+			}
+		}
+		c.Case(fmt.Sprintf("short:%s:%s", wire.TypeName(cd.t), lenClass2(k)), true)
+		c.Count("short_frames_checked", 1)
+		return true
 	case "version":
 		ms := []uint64{1 << 20, 1 << 19, 1 << 17, 1 << 18}[r.Intn(4)]
 		res := cn.p.Version(uint32(ms), v7)
@@ -419,7 +494,7 @@ func lenClass2(n int) string {
 
 func runC18(c *ev.Ctx) {
 	r := c.Rand("c18")
-	rounds := c.Sz(8, 600)
+	rounds := c.Sz(64, 600)
 	for round := 0; round < rounds; round++ {
 		if !c.Mine(round) {
 			continue
